@@ -1422,7 +1422,10 @@ class Generator:
             op["piece"] = self.rng.randrange(len(op["frac"]))
         else:
             op = {"op": "sample", "src": m.id, "frac": self.rng.choice([0.3, 0.5, 0.8]), "rs_seed": self.rng.randrange(1000), "rs_kind": kind}
-        return self.try_add(op, m.order, m.labels, self.next_id, m.index_kind)
+        # the per-partition random states are indexed by position: a partition selection pushed below the random op
+        # (head / tail / partitions[...]) changes which rows are drawn (a C11-type defect, not claimed), so the output
+        # is typed "order open" and none of those selections is generated on top of it
+        return self.try_add(op, "open", m.labels, self.next_id, m.index_kind)
 
     def g_alias(self):
         """Ops whose task returns its input object unchanged (clear_divisions, identity map_partitions) or that re-enter
